@@ -189,7 +189,7 @@ for name in sorted(os.listdir(src)):
     if not os.path.isfile(resf):
         print("no confirmation run for", name, file=sys.stderr)
         continue
-    txt = open(resf).read()
+    txt = open(resf, errors="replace").read()
     build = "build=ok" in txt
     suite = "suite=green" in txt
     m = re.search(r"demo: changed_tree_rc=(\d+) unchanged_tree_rc=(\d+)", txt)
